@@ -143,6 +143,7 @@ P = {
   technique="field-coverage lint + decision table over the abstract flag domain + printer/grammar literal agreement"),
 "C13": dict(
   decided={
+    "C13.e": "the test that gates the descent of the processor walk looks the object's class up by its qualified name (_tx_fqn), the key under which every namespace of the meta-model is searched, not by the simple class name",
     "C13.a": "call_obj_processors recurses before processing (children first), own-rule processor before grammar-rule processor; in parse_tree_to_objgraph processors run after the resolution loop, the unresolved check and _end_model_construction of all models",
     "C13.b": "list branch and scalar branch both store a non-None processor result back",
     "C13.c": "descent is containment-only and skipped for match rules",
